@@ -71,6 +71,15 @@ def run(eng, rep, tier):
                   "the parser reports success without checking the match / with variables left", s,
                   site=site_of(prog, f, f.node))
 
+    for cname, cq in (("RecursiveDecentParser", RD), ("LLOneParser", "pyformlang.cfg.llone_parser.LLOneParser")):
+        f0 = prog.method(cname, "__init__")
+        s0 = interp.run_entry(f0, cq)
+        ws = [ev for ev in s0.events if ev.kind == "write" and ev.wkind == "attr" and ev.value is not None]
+        kept = [ev for ev in ws if P("cfg") in ev.value.alias]
+        ob.decide("R1", "C15.2", f0, "parses-the-given-grammar:" + cname, bool(kept),
+                  "the parser stores the grammar object it was given",
+                  "%s does not keep the grammar it was given (it parses a transformed grammar: inner nodes of its trees "
+                  "are not productions of the user's grammar)" % cname, s0, site=site_of(prog, f0, f0.node))
     # -------------------------------------------------------------- C15.3 CYK back-pointers and root
     CYK = "pyformlang.cfg.cyk_table.CYKTable"
     f = prog.functions.get(CYK + "._propagate_in_cyk_table")
